@@ -287,6 +287,42 @@ func callerFacts(p *Prog, f *ssa.Function) ([]cons, string) {
 	lens := []int64{64, 32, 16, 8, 4, 2, 1}
 	for i, prm := range f.Params {
 		if _, _, ok := intKind(prm.Type()); ok {
+			// the same constant at every call site (block sizes handed down to helpers)
+			if k0, ok := constInt(sites[0].Common().Args[i]); ok || true {
+				pinned := false
+				tryK := []int64{}
+				if ok {
+					tryK = append(tryK, k0)
+				} else {
+					// a pass-through of the caller's own pinned parameter
+					cf, _ := callerFacts(p, sites[0].Parent())
+					if pp, isP := sites[0].Common().Args[i].(*ssa.Parameter); isP {
+						if kk, ok := pinnedIn(cf, pp); ok {
+							tryK = append(tryK, kk)
+						}
+					}
+				}
+				for _, k := range tryK {
+					all := true
+					for _, cs := range sites {
+						lb := &LB{p: p, f: cs.Parent(), UsedContracts: map[string]bool{}}
+						lb.extra, _ = callerFacts(p, cs.Parent())
+						if !proveAt(cs, eqc(lb.linOf(cs.Common().Args[i]), linConst(k))) {
+							all = false
+							break
+						}
+					}
+					if all {
+						me := linVar(lvar{0, prm})
+						out = append(out, eqc(me, linConst(k))...)
+						descs = append(descs, fmt.Sprintf("%s == %d at %d call sites", prm.Name(), k, len(sites)))
+						pinned = true
+					}
+				}
+				if pinned {
+					continue
+				}
+			}
 			for _, k := range cands {
 				all := true
 				for _, cs := range sites {
@@ -356,4 +392,33 @@ func callerFacts(p *Prog, f *ssa.Function) ([]cons, string) {
 	callerFactCache[f] = out
 	callerFactDesc[f] = strings.Join(descs, "; ")
 	return out, callerFactDesc[f]
+}
+
+// pinnedIn: facts contain v <= k and v >= k for the same k
+func pinnedIn(facts []cons, prm *ssa.Parameter) (int64, bool) {
+	v := lvar{0, prm}
+	var ups, los []int64
+	for _, c := range facts {
+		if c.ne || len(c.l.c) != 1 {
+			continue
+		}
+		co, ok := c.l.c[v]
+		if !ok {
+			continue
+		}
+		switch co {
+		case 1: // v + k <= 0  => v <= -k
+			ups = append(ups, -c.l.k)
+		case -1: // -v + k <= 0 => v >= k
+			los = append(los, c.l.k)
+		}
+	}
+	for _, u := range ups {
+		for _, l := range los {
+			if u == l {
+				return u, true
+			}
+		}
+	}
+	return 0, false
 }
